@@ -261,3 +261,46 @@ func HarnessRolloutDeployGate() {
 	vCover(err == nil && res.body == "FROM[new0:80]", "served by the new rollout target reachable")
 	vCover(err != nil, "failed rollout deploy reachable")
 }
+
+// HarnessRedeploySameTarget: a service is redeployed with the very target it already has (same address): the gate is
+// the same as for any deploy - the new balancer takes over only after that target answered a fresh probe with 2xx
+// within the deploy timeout, whatever its state in the running service was.
+func HarnessRedeploySameTarget() {
+	vT2(vParam("preemptions", 0), vParam("firings", 12))
+	vSortMode = 0
+	router := NewRouter("/state")
+	interval := vDur("interval")
+	vAssume(interval > 0)
+	ptimeout := vDur("probe_timeout")
+	deployTimeout := vDur("deploy_timeout")
+	drainTimeout := vDur("drain_timeout")
+	topts := TargetOptions{HealthCheckConfig: HealthCheckConfig{Path: "/up", Interval: interval, Timeout: ptimeout}}
+	oldSvc, oldLB := vInstallOldService(router, topts)
+	P := vParam("probes", 2)
+	sc := &vProbeScript{parkAfter: true}
+	for p := 0; p < P; p++ {
+		tag := "p" + vItoa(p)
+		sc.outcomes = append(sc.outcomes, vProbeOutcome{kind: vProbeStatus, refused: vBool(tag + "_refused"), status: vIntRange(tag+"_status", 100, 599), latency: vDur(tag + "_lat")})
+	}
+	vProbeScripts["old:80"] = sc
+	start := vNow()
+	err := router.DeployService("svc", []string{"old:80"}, ServiceOptions{Hosts: []string{"h"}}, topts, deployTimeout, drainTimeout)
+	vEmit(vEvent{kind: "cmd_return", ok: err == nil})
+	vNote(vTraceString())
+	deadline := start + int64(deployTimeout)
+	firstOK := int64(-1)
+	for _, e := range vTrace {
+		if e.kind == "probe_end" && e.target == "old:80" && e.ok && firstOK < 0 {
+			firstOK = e.at
+		}
+	}
+	if firstOK >= 0 && firstOK < deadline {
+		vAssert(err == nil, "same target: healthy within the deploy timeout => deploy succeeds")
+	}
+	if !(firstOK >= 0 && firstOK <= deadline) {
+		vAssert(err != nil, "same target: no successful probe within the deploy timeout => deploy fails")
+		vAssert(router.services.Get("svc") == oldSvc && oldSvc.active == oldLB, "same target: a failed redeploy leaves the service as it was")
+	}
+	vCover(err == nil, "successful redeploy reachable")
+	vCover(err != nil, "failed redeploy reachable")
+}
